@@ -39,6 +39,11 @@ TDeclassify == /\ l <= Len(TraceEvents) /\ Ev.e = "Declassify" /\ key # << >>
 TReturn == /\ l <= Len(TraceEvents) /\ Ev.e = "Return" /\ key # << >>
            /\ key' = << >> /\ l' = l + 1 /\ UNCHANGED << table, compared >>
 Next == TCall \/ TSegment \/ TDeclassify \/ TReturn
+\* the machine is deterministic: the position determines the state, so TLC fingerprints only the position (linear instead of
+\* quadratic cost in the trace length; the table is still carried and consulted)
+TraceView == l
+\* error traces print the position and the comparison count only (the table would make the printout quadratic)
+TraceAlias == [ l |-> l, compared |-> compared ]
 \* accepted iff all events are consumed (TLC reports this "invariant" violated exactly then)
 NotAccepted == l <= Len(TraceEvents)
 
